@@ -2,6 +2,7 @@
 // code on every case and prints one canonical observation line per case (`obs <id> ...`) plus
 // direct-oracle verdicts (`orc <id> ok` / `orc <id> FAIL <why>`).
 mod c04;
+mod c06;
 mod util;
 
 use std::io::{BufRead, Write};
@@ -26,6 +27,7 @@ fn main() {
         let id = toks[0];
         let res = std::panic::catch_unwind(|| match stream {
             "c04" => c04::run(&toks[1..]),
+            "c06" => c06::run(&toks[1..]),
             _ => panic!("unknown stream"),
         });
         match res {
